@@ -940,3 +940,114 @@ func vh_C04_Constructors() {
 	}
 	vfReach("end")
 }
+
+// two RESULTS are collections of their own as well: after Set on one of them, an earlier result and a later result of
+// the same kind of call hold what their definitions prescribe (no hidden sharing between results, e.g. a cached
+// empty set). Both StreamSet families and both Set families, with empty / nil arguments included.
+func vh_C04_ResultsAreIndependent() {
+	vfSetMapOrder(2)
+	k := vfInt("k")
+	a := vfIntList("a", 2, 0)
+	argEmpty := vfChoose("argument", 3) // 0: nil, 1: empty, 2: the receiver's own keys
+	switch vfChoose("family", 4) {
+	case 0:
+		recv := StreamSetForInterfaceFromArray(c05Box(a))
+		var arg *StreamSetForInterfaceDef
+		if argEmpty == 1 {
+			arg = NewStreamSetForInterface()
+		} else if argEmpty == 2 {
+			arg = StreamSetForInterfaceFromArray(c05Box(a))
+		}
+		op := func() *StreamSetForInterfaceDef {
+			if vfChoose("op", 2) == 0 {
+				return recv.Intersection(arg)
+			}
+			return recv.MinusStreams(arg)
+		}
+		var r1, r2, r3 *StreamSetForInterfaceDef
+		if !vfNoPanic("nopanic", func() { r1, r2 = op(), op() }) || r1 == nil || r2 == nil || r1 == recv || r2 == recv {
+			vfReach("end")
+			return
+		}
+		had := r2.ContainsKey(k)
+		size := r2.Size()
+		if vfPanics(func() { r1.Set(k, StreamForInterface.FromArray(nil)) }) {
+			vfReach("end")
+			return
+		}
+		if r1 != r2 { // (the same object handed out twice is that object; what matters then is the next result)
+			vfAssert("earlier-result-unchanged", vfAnd(r2.ContainsKey(k) == had, r2.Size() == size))
+		}
+		vfNoPanic("nopanic", func() { r3 = recv.Intersection(nil) })
+		vfAssert("later-result-is-what-its-definition-says", r3 != nil && r3.Size() == 0)
+	case 1:
+		recv := StreamSetFromArray[int, int](a)
+		var arg *StreamSetDef[int, int]
+		if argEmpty == 1 {
+			arg = NewStreamSet[int, int]()
+		} else if argEmpty == 2 {
+			arg = StreamSetFromArray[int, int](a)
+		}
+		op := func() *StreamSetDef[int, int] {
+			if vfChoose("op", 2) == 0 {
+				return recv.Intersection(arg)
+			}
+			return recv.MinusStreams(arg)
+		}
+		var r1, r2, r3 *StreamSetDef[int, int]
+		if !vfNoPanic("nopanic", func() { r1, r2 = op(), op() }) || r1 == nil || r2 == nil || r1 == recv || r2 == recv {
+			vfReach("end")
+			return
+		}
+		had := r2.ContainsKey(k)
+		size := r2.Size()
+		if vfPanics(func() { r1.Set(k, new(StreamDef[int])) }) {
+			vfReach("end")
+			return
+		}
+		if r1 != r2 {
+			vfAssert("earlier-result-unchanged", vfAnd(r2.ContainsKey(k) == had, r2.Size() == size))
+		}
+		vfNoPanic("nopanic", func() { r3 = recv.Intersection(nil) })
+		vfAssert("later-result-is-what-its-definition-says", r3 != nil && r3.Size() == 0)
+	case 2:
+		recv := SetForInterfaceFromArray(c05Box(a))
+		var arg *SetForInterfaceDef
+		if argEmpty == 1 {
+			arg = SetForInterfaceFromArray(nil)
+		} else if argEmpty == 2 {
+			arg = SetForInterfaceFromArray(c05Box(a))
+		}
+		var r1, r2 *SetForInterfaceDef
+		if !vfNoPanic("nopanic", func() { r1, r2 = recv.Intersection(arg), recv.Intersection(arg) }) || r1 == nil || r2 == nil || r1 == recv || r2 == recv || r1 == r2 {
+			vfReach("end")
+			return
+		}
+		had := r2.ContainsKey(k)
+		if vfPanics(func() { r1.Set(k, k) }) {
+			vfReach("end")
+			return
+		}
+		vfAssert("earlier-result-unchanged", r2.ContainsKey(k) == had)
+	default:
+		recv := SetFromArray[int, int](a)
+		var arg SetDef[int, int]
+		if argEmpty == 1 {
+			arg = SetFromArray[int, int](nil)
+		} else if argEmpty == 2 {
+			arg = SetFromArray[int, int](a)
+		}
+		var r1, r2 SetDef[int, int]
+		if !vfNoPanic("nopanic", func() { r1, r2 = recv.Intersection(arg), recv.Intersection(arg) }) || r1 == nil || r2 == nil || r1.AsMapSet() == recv || r2.AsMapSet() == recv || r1.AsMapSet() == r2.AsMapSet() {
+			vfReach("end")
+			return
+		}
+		had := r2.ContainsKey(k)
+		if vfPanics(func() { r1.Set(k, k) }) {
+			vfReach("end")
+			return
+		}
+		vfAssert("earlier-result-unchanged", r2.ContainsKey(k) == had)
+	}
+	vfReach("end")
+}
